@@ -21,6 +21,7 @@ from gv.astutil import walk_body
 from gv.cfg import cfg_of
 from gv.dataflow import UNKNOWN
 from gv.dataflow import Forward
+from gv.props.shared import conj_literals
 from gv.props.shared import unfolded
 from gv.props import describe
 from gv.report import Ctx
@@ -89,7 +90,54 @@ def compute_roles(ctx: Ctx) -> dict[str, dict]:
 # 1.2 coordinate-space typing of the four memoising methods
 
 
-def _space_eval(self_tag: str, name_aliases: dict[str, str]):
+_BOUND = {"_unnormalize_vect": "unnormalize_vect", "_normalize_grad": "normalize_grad", "_unnormalize_grad": "unnormalize_grad"}
+
+
+def _signatures(ctx: Ctx) -> dict[str, list[str]]:
+    """Parameter names (without self/cls) of the callables a memoising method goes through, by the attribute they are
+    called by: the converters are the DesignSpace methods bound in ``__init__`` (rule 1.2-binding)."""
+    out = {}
+
+    def params(f):
+        ps = [a.arg for a in [*f.args.posonlyargs, *f.args.args]]
+        static = any(dotted(d) == "staticmethod" for d in f.decorator_list)
+        return ps if static else ps[1:]
+
+    for attr, meth in _BOUND.items():
+        out[attr] = params(ctx.index.method(DS, "DesignSpace", meth))
+    for m in ("_compute_output", "_compute_jacobian"):
+        out[m] = params(ctx.index.method(PF, "ProblemFunction", m))
+    for m in ("get_hashable_ndarray", "get_function_value", "store", "get"):
+        try:
+            out[m] = params(ctx.index.method(DB, "Database", m))
+        except AnalysisError:
+            pass
+    return out
+
+
+def _argument(sig: dict[str, list[str]], call: ast.Call, pos: int) -> ast.AST | None:
+    """Argument ``pos`` of a call, given by position or by the name of the callee's parameter."""
+    if pos < len(call.args):
+        return None if any(isinstance(a, ast.Starred) for a in call.args[: pos + 1]) else call.args[pos]
+    ps = sig.get(last_attr(call) or "", [])
+    return kwarg(call, ps[pos]) if pos < len(ps) else None
+
+
+def _one_entry(d: ast.AST | None) -> tuple[ast.AST, ast.AST] | None:
+    """(key, value) of a mapping with exactly one entry: ``{k: v}``, ``dict([(k, v)])``, ``dict(((k, v),))``, ``dict({k: v})``."""
+    if isinstance(d, ast.Dict):
+        return (d.keys[0], d.values[0]) if len(d.keys) == 1 and d.keys[0] is not None else None
+    if isinstance(d, ast.Call) and call_name(d) == "dict" and len(d.args) == 1 and not d.keywords:
+        a = d.args[0]
+        if isinstance(a, ast.Dict):
+            return _one_entry(a)
+        if isinstance(a, (ast.List, ast.Tuple)) and len(a.elts) == 1 and isinstance(a.elts[0], (ast.Tuple, ast.List)) and len(a.elts[0].elts) == 2:
+            k, v = a.elts[0].elts
+            return None if isinstance(k, ast.Starred) or isinstance(v, ast.Starred) else (k, v)
+    return None
+
+
+def _space_eval(self_tag: str, sig: dict[str, list[str]]):
     """Expression evaluator for K3 inside a ``_compute_*_db*`` method.
 
     Tags: N, U (points), V (value), JN, JU (Jacobians), K:U / K:N (hashed key of a point in that
@@ -113,7 +161,8 @@ def _space_eval(self_tag: str, name_aliases: dict[str, str]):
         if isinstance(e, ast.Call):
             f = e.func
             la = last_attr(e)
-            a0 = ev(e.args[0], env) if e.args and not isinstance(e.args[0], ast.Starred) else UNKNOWN
+            first = _argument(sig, e, 0)
+            a0 = ev(first, env) if first is not None else UNKNOWN
             if la == "_unnormalize_vect":
                 return frozenset({"U"}) if a0 == {"N"} else frozenset({"bad:unnormalize_vect(" + "/".join(sorted(a0)) + ")"})
             if la == "_unnormalize_grad":
@@ -127,7 +176,7 @@ def _space_eval(self_tag: str, name_aliases: dict[str, str]):
             if la == "get_hashable_ndarray":
                 return frozenset({"K:" + t for t in a0})
             if la == "get_function_value":
-                nm = ev(e.args[0], env) if e.args else UNKNOWN
+                nm = a0
                 if nm == {"name:out"}:
                     return frozenset({"V"})
                 if nm == {"name:grad"}:
@@ -152,7 +201,16 @@ def check_memo_method(ctx: Ctx, mname: str, info: dict) -> None:
     in_tag = "N" if info["norm"] else "U"
     params = [a.arg for a in func.args.args if a.arg != "self"]
     ctx.need(len(params) == 1, f"{mname}: expected exactly one data parameter")
-    ev = _space_eval(in_tag, {})
+    sig = _signatures(ctx)
+    ev = _space_eval(in_tag, sig)
+
+    def arg(c, i):
+        return _argument(sig, c, i)
+
+    def atags(c, i):
+        a = arg(c, i)
+        return fw.tags(a) if a is not None else UNKNOWN
+
     fw = Forward(cfg, ev, init={params[0]: frozenset({in_tag})})
     role = info["role"]
     want_name = "name:out" if role == "output" else "name:grad"
@@ -169,13 +227,13 @@ def check_memo_method(ctx: Ctx, mname: str, info: dict) -> None:
     hashed = rules.calls_named(func, "get_hashable_ndarray")
     ctx.need(hashed, f"{mname}: no get_hashable_ndarray call (key construction not recognised)")
     for c in hashed:
-        t = tags(c.args[0]) if c.args else UNKNOWN
+        t = atags(c, 0)
         ctx.ob("1.2-key", con, t == {"U"}, f"the database key is built from a point tagged {fmt(t)}; it must be the physical (unnormalised) point", node=c, slots={"arg": fmt(t)})
     lookups = rules.calls_named(func, "get_function_value")
     ctx.need(lookups, f"{mname}: no get_function_value lookup")
     for c in lookups:
-        nm = tags(c.args[0]) if c.args else UNKNOWN
-        key = tags(c.args[1]) if len(c.args) > 1 else UNKNOWN
+        nm = atags(c, 0)
+        key = atags(c, 1)
         ctx.ob("1.2-lookup-name", con, nm == {want_name}, f"the {role} method looks up {fmt(nm)} instead of {want_name}", node=c)
         ctx.ob("1.2-lookup-key", con, key <= {"K:U", "U"} and bool(key), f"the lookup key is {fmt(key)}; it must be the (hashed) physical point", node=c)
     stores = rules.calls_named(func, "store")
@@ -183,17 +241,17 @@ def check_memo_method(ctx: Ctx, mname: str, info: dict) -> None:
     if not stores:
         ctx.ob("1.2-store-value", con, False, f"{mname} never records what it computed in the database: the value is recomputed at each request and the history lacks the point", node=func, stmt="computed value stored")
     for c in stores:
-        key = tags(c.args[0]) if c.args else UNKNOWN
+        key = atags(c, 0)
         ctx.ob("1.2-store-key", con, key <= {"K:U", "U"} and bool(key), f"the value is stored under a key tagged {fmt(key)}; it must be the (hashed) physical point", node=c)
-        d = c.args[1] if len(c.args) > 1 else kwarg(c, "outputs")
-        ok_shape = isinstance(d, ast.Dict) and len(d.keys) == 1 and d.keys[0] is not None
-        ctx.need(ok_shape, f"{mname}: stored mapping is not a one-entry dict literal")
-        nm, val = tags(d.keys[0]), tags(d.values[0])
+        d = arg(c, 1)
+        entry = _one_entry(d)
+        ctx.need(entry is not None, f"{mname}: stored mapping is not a one-entry dict literal")
+        nm, val = tags(entry[0]), tags(entry[1])
         ctx.ob("1.2-store-name", con, nm == {want_name}, f"the {role} method stores under {fmt(nm)} instead of {want_name}", node=c)
         ctx.ob("1.2-store-value", con, val == {want_val}, f"the stored value is tagged {fmt(val)}; the database must hold {want_val} ({'the function value' if role == 'output' else 'the physical-space Jacobian'})", node=c, slots={"value": fmt(val)})
     gets = [c for c in rules.calls_named(func, "get") if fw.tags(c.func.value) == {"db"}]
     for c in gets:
-        key = tags(c.args[0]) if c.args else UNKNOWN
+        key = atags(c, 0)
         ctx.ob("1.2-get-key", con, key <= {"K:U", "U"} and bool(key), f"database.get is asked with a key tagged {fmt(key)}", node=c)
     # -- sinks: compute calls and returns ----------------------------------
     comp_name = "_compute_output" if role == "output" else "_compute_jacobian"
@@ -240,7 +298,7 @@ def check_memo_method(ctx: Ctx, mname: str, info: dict) -> None:
     # compare the value looked up with the same key that is stored
     for c in lookups:
         for st in stores:
-            ctx.ob("1.3-same-key", con, same(c.args[1] if len(c.args) > 1 else None, st.args[0] if st.args else None), "lookup and store use different key expressions", node=st)
+            ctx.ob("1.3-same-key", con, same(arg(c, 1), arg(st, 0)), "lookup and store use different key expressions", node=st)
 
     # -- 1.4 store after compute ---------------------------------------------
     store_nodes = {cfg.node_of(c) for c in stores}
@@ -280,27 +338,90 @@ def check_sequences(ctx: Ctx) -> None:
     for s in func.body:
         if isinstance(s, ast.Assign) and dotted(s.value) == "self.design_space":
             ds_names |= {t.id for t in s.targets if isinstance(t, ast.Name)}
-    # the chain
-    chain = [s for s in func.body if isinstance(s, ast.If) and any(isinstance(x, ast.Assign) and any(isinstance(t, ast.Name) and t.id in ("func_seq", "jac_seq") for t in x.targets) for x in ast.walk(s))]
+    # the decision tree: an if/elif chain, possibly with a test split over nested ifs; every leaf is the list of the
+    # (polarity, test) pairs on its path and the statements executed on it
+    def assigns_seq(node):
+        return any(isinstance(x, ast.Assign) and any(isinstance(t, ast.Name) and t.id in ("func_seq", "jac_seq") for t in x.targets) for x in ast.walk(node))
+
+    chain = [s for s in func.body if isinstance(s, ast.If) and assigns_seq(s)]
     ctx.need(len(chain) == 1, "_preprocess_function: the if/elif chain building func_seq/jac_seq was not found")
-    branches = []
-    cur = chain[0]
-    while True:
-        branches.append((cur.test, cur.body))
-        if len(cur.orelse) == 1 and isinstance(cur.orelse[0], ast.If):
-            cur = cur.orelse[0]
-        else:
-            branches.append((None, cur.orelse))
-            break
+    top_level = [s for s in func.body if s is not chain[0]]
+
+    def leaves(node, conds, around):
+        out = []
+        # a test held in a local (``flag = a and b`` ... ``elif flag:``) is the formula the local stands for
+        alts = unfolded(func, node.test)
+        test = alts[0] if alts and len(alts) == 1 else node.test
+        for pol, body in ((True, node.body), (False, node.orelse)):
+            c = [*conds, (pol, test)]
+            inner = [s for s in body if isinstance(s, ast.If) and assigns_seq(s)]
+            if len(inner) == 1:
+                k = body.index(inner[0])
+                out += leaves(inner[0], c, (around[0] + body[:k], body[k + 1:] + around[1]))
+            else:
+                out.append((c, around[0] + body + around[1]))
+        return out
+
+    branches = leaves(chain[0], [], ([], []))
     ctx.need(all(b for _, b in branches), "a branch of the sequence chain is empty")
 
-    def conj(test):
-        if test is None:
-            return []
-        return test.values if isinstance(test, ast.BoolOp) and isinstance(test.op, ast.And) else [test]
+    def literals(conds):
+        """The literals known on a path: those of a conjunction that held, the negation of a single literal that did not."""
+        out = []
+        for pol, t in conds:
+            lits = conj_literals(t)
+            if pol:
+                out += lits
+            elif len(lits) == 1:
+                out.append((not lits[0][0], lits[0][1]))
+        return out
 
-    for bi, (test, body) in enumerate(branches):
-        label = "else" if test is None else "if " + norm_stmt(test, 70)
+    def label_of(conds):
+        first = next((i for i, (pol, _) in enumerate(conds) if pol), None)
+        if first is None:
+            return "else"
+        return "if " + " and ".join(("" if pol else "not ") + norm_stmt(t, 70) for pol, t in conds[first:])
+
+    def local_def(name, body):
+        """The single definition of a local among the statements of the leaf and the top level of the function."""
+        ds_ = [s for s in [*top_level, *body] if isinstance(s, ast.Assign) and any(isinstance(t, ast.Name) and t.id == name for t in s.targets)]
+        return ds_[0].value if len(ds_) == 1 and len(ds_[0].targets) == 1 else None
+
+    def elements(e, body, depth=0):
+        """The callables of a sequence, in order: [(starred, expression)], or None when the expression is not understood
+        as a tuple; ``(a, b) + t``, ``(a, *(b, c))``, ``(*t, a)`` and a local holding a tuple are flattened."""
+        if depth > 6:
+            return None
+        if isinstance(e, ast.Tuple):
+            out = []
+            for el in e.elts:
+                if isinstance(el, ast.Starred):
+                    sub = elements(el.value, body, depth + 1) if not isinstance(el.value, ast.Name) or isinstance(local_def(el.value.id, body), (ast.Tuple, ast.BinOp)) else None
+                    out += sub if sub is not None else [(True, el.value)]
+                else:
+                    if isinstance(el, ast.Name) and isinstance(local_def(el.id, body), ast.Attribute):
+                        el = local_def(el.id, body)
+                    out.append((False, el))
+            return out
+        if isinstance(e, ast.BinOp) and isinstance(e.op, ast.Add):
+            parts = []
+            for side in (e.left, e.right):
+                sub = elements(side, body, depth + 1)
+                if sub is None:
+                    if not isinstance(side, ast.Name):
+                        return None
+                    sub = [(True, side)]  # an opaque tuple concatenated: the same as unpacking it in place
+                parts += sub
+            return parts
+        if isinstance(e, ast.Name):
+            d = local_def(e.id, body)
+            if isinstance(d, (ast.Tuple, ast.BinOp)):
+                return elements(d, body, depth + 1)
+        return None
+
+    leaf_seqs = []  # per leaf: {func_seq/jac_seq: (elements, statement)}
+    for bi, (conds, body) in enumerate(branches):
+        label = label_of(conds)
         seqs = {}
         expects = None
         normalized_function = False
@@ -308,8 +429,9 @@ def check_sequences(ctx: Ctx) -> None:
             if isinstance(s, ast.Assign) and len(s.targets) == 1 and isinstance(s.targets[0], ast.Name):
                 tn = s.targets[0].id
                 if tn in ("func_seq", "jac_seq"):
-                    ctx.need(isinstance(s.value, ast.Tuple), f"{tn} is not a tuple literal in branch {label}")
-                    seqs[tn] = s
+                    els = elements(s.value, body)
+                    ctx.need(els is not None, f"{tn} is not a tuple literal in branch {label}")
+                    seqs[tn] = (els, s)
                 elif tn == "expects_normalized_inputs":
                     expects = s.value
                 elif tn == "function" and isinstance(s.value, ast.Call) and last_attr(s.value) == "normalize":
@@ -317,6 +439,7 @@ def check_sequences(ctx: Ctx) -> None:
                     ctx.need(arg is not None and dotted(arg) in ds_names, "function.normalize is not given the problem's design space")
                     normalized_function = True
         ctx.need(set(seqs) == {"func_seq", "jac_seq"} and expects is not None, f"branch {label}: func_seq/jac_seq/expects_normalized_inputs not all assigned")
+        leaf_seqs.append(seqs)
         if isinstance(expects, ast.Constant):
             start = "N" if expects.value is True else "X"
         elif dotted(expects) == "function.expects_normalized_inputs":
@@ -325,19 +448,20 @@ def check_sequences(ctx: Ctx) -> None:
             raise AnalysisError(f"branch {label}: unrecognised expects_normalized_inputs value {norm_stmt(expects)}")
         f_in = "N" if normalized_function else ("U" if start == "N" else "X")  # what function.func expects
         # polarity demanded by the branch test
-        positives = {dotted(c) for c in conj(test)}
-        negatives = {dotted(c.operand) for c in conj(test) if isinstance(c, ast.UnaryOp) and isinstance(c.op, ast.Not)}
+        lits = literals(conds)
+        positives = {dotted(e_) for pol_, e_ in lits if pol_}
+        negatives = {dotted(e_) for pol_, e_ in lits if not pol_}
         if "is_function_input_normalized" in positives:
-            ctx.ob("1.1-expects", con, start == "N", f"branch {label} handles normalised inputs but declares expects_normalized_inputs={norm_stmt(expects)}", node=seqs["func_seq"], stmt=f"{label}: expects_normalized_inputs")
-        for tn, s in seqs.items():
+            ctx.ob("1.1-expects", con, start == "N", f"branch {label} handles normalised inputs but declares expects_normalized_inputs={norm_stmt(expects)}", node=seqs["func_seq"][1], stmt=f"{label}: expects_normalized_inputs")
+        for tn, (els, s) in seqs.items():
             cur_tag = start
             problems = []
             names = []
-            for el in s.value.elts:
-                if isinstance(el, ast.Starred):
-                    names.append("*" + norm_stmt(el.value))
+            for starred, el in els:
+                if starred or dotted(el) == "self._convert_array_to_dense":
+                    names.append(("*" if starred else "") + norm_stmt(el))
                     if not cur_tag.startswith("J"):
-                        problems.append(f"*{norm_stmt(el.value)} (Jacobian densification) applied to a non-Jacobian {cur_tag}")
+                        problems.append(f"{names[-1]} (Jacobian densification) applied to a non-Jacobian {cur_tag}")
                     continue
                 d = dotted(el) or norm_stmt(el)
                 names.append(d)
@@ -408,20 +532,15 @@ def check_sequences(ctx: Ctx) -> None:
         return env[norm_stmt(t)]
 
     atoms = set()
-    for test, _ in branches:
-        atoms_of(test, atoms)
+    for conds, _ in branches:
+        for _pol, test in conds:
+            atoms_of(test, atoms)
     atoms = sorted(atoms)
     ctx.need({"round_ints", "is_function_input_normalized"} <= set(atoms) and len(atoms) <= 5, f"the options tested by the sequence chain are not the expected ones: {atoms}")
-    summaries = []
-    for test, body in branches:
-        seq_names = {}
-        for s_ in body:
-            if isinstance(s_, ast.Assign) and isinstance(s_.targets[0], ast.Name) and s_.targets[0].id in ("func_seq", "jac_seq") and isinstance(s_.value, ast.Tuple):
-                seq_names[s_.targets[0].id] = ([dotted(e_.value if isinstance(e_, ast.Starred) else e_) or "" for e_ in s_.value.elts], s_)
-        summaries.append(seq_names)
+    summaries = [{tn: ([dotted(e_) or "" for _st, e_ in els], s_) for tn, (els, s_) in seqs.items()} for seqs in leaf_seqs]
     for combo in itertools.product((True, False), repeat=len(atoms)):
         env = dict(zip(atoms, combo))
-        k = next(i for i, (test, _) in enumerate(branches) if holds(test, env))
+        k = next(i for i, (conds, _) in enumerate(branches) if all(holds(test, env) == pol for pol, test in conds))
         cfg_label = ", ".join(f"{a if len(a) < 40 else 'linear function'}={v}" for a, v in env.items())
         for tn, (names_, s_) in summaries[k].items():
             has_round = any(n_.endswith(".round_vect") for n_ in names_)
@@ -446,8 +565,7 @@ def check_init_bindings(ctx: Ctx) -> None:
     """The converters bound in ``__init__`` are the design-space methods of matching name."""
     init = ctx.index.method(PF, "ProblemFunction", "__init__")
     con = cname(PF, "ProblemFunction", "__init__")
-    want = {"_unnormalize_vect": "unnormalize_vect", "_normalize_grad": "normalize_grad", "_unnormalize_grad": "unnormalize_grad"}
-    for attr, meth in want.items():
+    for attr, meth in _BOUND.items():
         ss = rules.assigns_to_self(init, attr)
         ctx.need(ss, f"ProblemFunction.__init__ does not bind {attr}")
         for s in ss:
@@ -488,6 +606,28 @@ def check_grad_scaling(ctx: Ctx) -> None:
     rules.rule_forwarding(ctx, "1.5-forwarding", ds, ["normalize_vect", "unnormalize_vect"], "gradient scaling goes through (un)normalize_vect(minus_lb=False)")
 
 
+def _final_values(func: ast.AST, stmts: list[ast.stmt], facts: dict[str, bool]) -> dict[int, list[ast.AST] | None]:
+    """For each assignment of ``stmts`` (by id): the alternatives of the value it assigns (locals unfolded) when, in the
+    function specialised on ``facts``, it can be the last of ``stmts`` executed before the function returns; else None."""
+    from gv.shapes import specialise
+
+    vals = {id(s): unfolded(func, s, facts, get=lambda st: getattr(st, "value", None)) for s in stmts}  # also numbers the nodes
+    g = specialise(func, facts)
+    cfg = cfg_of(g)
+    by_uid = {n._gv_uid: n for n in ast.walk(g) if hasattr(n, "_gv_uid")}
+    nodes = {}
+    for s in stmts:
+        t = by_uid.get(getattr(s, "_gv_uid", None))
+        if t is not None and cfg.has(t):
+            nodes[id(s)] = cfg.node_of(t)
+    out = {}
+    for s in stmts:
+        n = nodes.get(id(s))
+        live = n is not None and vals[id(s)] is not None and cfg.path(n, cfg.exit, avoid=set(nodes.values()) - {n}) is not None
+        out[id(s)] = vals[id(s)] if live else None
+    return out
+
+
 def check_keys(ctx: Ctx) -> None:
     store = ctx.index.method(DB, "Database", "store")
     con = cname(DB, "Database", "store")
@@ -512,17 +652,27 @@ def check_keys(ctx: Ctx) -> None:
     con3 = cname(HN, "HashableNdarray", "__init__")
     arr = rules.assigns_to_self(init, "__array", "HashableNdarray")
     ctx.need(arr, "HashableNdarray.__init__ does not bind __array")
+    # what the attribute holds when the constructor returns, for each outcome of the copy flag: whichever way the choice
+    # is written (conditional expression, if/else, default then override), the LAST binding executed decides
+    array_p, copy_p = ([a.arg for a in init.args.args] + ["array", "copy"])[1:3]
+    imports = ctx.index.module(HN).imports
+
+    def fresh_copy(e):
+        if not (isinstance(e, ast.Call) and array_p in names_in(e)):
+            return False
+        if any(k.arg == "copy" and not (isinstance(k.value, ast.Constant) and k.value.value is True) for k in e.keywords):
+            return False
+        if isinstance(e.func, ast.Name):
+            return e.func.id in ("np_array", "array", "copy") or imports.get(e.func.id) in ("numpy.array", "numpy.copy", "copy.copy", "copy.deepcopy")
+        return last_attr(e) in ("array", "copy", "deepcopy")
+
+    on = _final_values(init, arr, {copy_p: True})
+    off = _final_values(init, arr, {copy_p: False})
     for s in arr:
-        v = s.value
-        ok = isinstance(v, ast.IfExp) and dotted(v.test) == "copy" and isinstance(v.body, ast.Call) and last_attr(v.body) in ("np_array", "array", "copy") and dotted(v.orelse) == "array"
-        if isinstance(v, ast.Call) and last_attr(v) in ("np_array", "array", "copy"):
-            ok = True  # always copying is stronger
-        if not ok:
-            # the same through a conditional re-assignment: what is stored when copy is requested / is not
-            on = unfolded(init, s, {"copy": True}, get=lambda st: st.value)
-            off = unfolded(init, s, {"copy": False}, get=lambda st: st.value)
-            ok = bool(on) and all(isinstance(a_, ast.Call) and last_attr(a_) in ("np_array", "array", "copy") and "array" in names_in(a_) for a_ in on) and bool(off) and all("array" in names_in(a_) for a_ in off)
+        v_on, v_off = on[id(s)], off[id(s)]
+        ok = (v_on is None or all(fresh_copy(a_) for a_ in v_on)) and (v_off is None or all(array_p in names_in(a_) for a_ in v_off))
         ctx.ob("1.6-wrap-copy", con3, ok, "the wrapped array must be a fresh copy when copy=True", node=s)
+    ctx.ob("1.6-wrap-copy", con3, any(on[id(s)] is not None for s in arr) and any(off[id(s)] is not None for s in arr), "the wrapped array is not bound for some value of the copy flag", node=init, stmt="wrapped array bound whatever the copy flag")
     hs = rules.assigns_to_self(init, "__hash", "HashableNdarray")
     ctx.need(hs, "HashableNdarray.__init__ does not bind __hash")
     for s in hs:
@@ -563,9 +713,14 @@ def check_linear_normalize(ctx: Ctx) -> None:
     def is_bound(e, which):
         return isinstance(e, ast.Call) and last_attr(e) == which and dotted(e.func.value) == space
 
+    def uf(e):
+        """The expression with the locals it reads replaced by their (single) definition."""
+        alts = unfolded(f, e)
+        return alts[0] if alts and len(alts) == 1 else e
+
     factor_var = shift_var = None
     for name, s in wheres.items():
-        a = s.value.args
+        a = [uf(x) for x in s.value.args]
         if isinstance(a[1], ast.BinOp):
             factor_var = name
             ok = isinstance(a[1].op, ast.Sub) and is_bound(a[1].left, "get_upper_bounds") and is_bound(a[1].right, "get_lower_bounds") and const_value(a[2]) in (1, 1.0)
@@ -575,11 +730,12 @@ def check_linear_normalize(ctx: Ctx) -> None:
             ok = is_bound(a[1], "get_lower_bounds") and const_value(a[2], 1) in (0, 0.0)
             ctx.ob("1.8-shift", con, ok, "the shift of a normalised component must be the lower bound (0 elsewhere)", node=s)
     ctx.need(factor_var and shift_var, "MDOLinearFunction.normalize: factor/shift not identified")
-    masks = [norm_stmt(s.value.args[0]) for s in wheres.values()]
+    mask_exprs = [uf(s.value.args[0]) for s in wheres.values()]
+    masks = [norm_stmt(m) for m in mask_exprs]
     ctx.ob("1.8-mask", con, masks[0] == masks[1], "factor and shift must be selected with the same normalisation-policy mask", node=wheres[shift_var], stmt="same mask in both where()")
-    # the mask is the design space's policy
-    mask_defs = [s for s in stmts_of(f) if isinstance(s, ast.Assign) and any(isinstance(t, ast.Name) and t.id == masks[0] for t in s.targets)]
-    ok = bool(mask_defs) and all(isinstance(s.value, ast.Call) and last_attr(s.value) == "convert_dict_to_array" and s.value.args and dotted(s.value.args[0]) == f"{space}.normalize" for s in mask_defs)
+    # the mask is the design space's policy (whether held in a local or computed in place)
+    mask_defs = [s for s in stmts_of(f) if isinstance(s, ast.Assign) and any(isinstance(t, ast.Name) and any(isinstance(w.value.args[0], ast.Name) and w.value.args[0].id == t.id for w in wheres.values()) for t in s.targets)]
+    ok = all(isinstance(m, ast.Call) and last_attr(m) == "convert_dict_to_array" and isinstance(m.func, ast.Attribute) and dotted(m.func.value) == space and len(m.args) == 1 and dotted(m.args[0]) == f"{space}.normalize" for m in mask_exprs)
     ctx.ob("1.8-mask", con, ok, "the mask must be input_space.convert_dict_to_array(input_space.normalize)", node=mask_defs[0] if mask_defs else f, stmt="mask = policy array")
     # coefficients multiplied by the factor
     mults = []
